@@ -109,7 +109,7 @@ CORPUS = [
     ("existing_comments",
      "/* c1 */ int c1(int); // c2\nint c2(int); /* multi\nline */\n"),
     ("existing_line_directives",
-     "# 1 \"hdr.h\"\nint ld1(int);\n#line 5 \"hdr.h\"\nint ld2(int);\n"),
+     "# 1 \"inc//hdr...h\"\nint ld1(int);\n#line 5 \"inc//hdr...h\"\nint ld2(int);\n"),
 ]
 
 NAMES = [n for n, _ in CORPUS]
